@@ -799,6 +799,25 @@ where
     BitFieldVec<W, B>: AtomicViewTrace,
 {
     v.atomic_trace(t, q);
+    // equality across backends: with a heap copy of the same elements (both directions)
+    // and with a copy that differs in one element
+    {
+        use sux::traits::BitFieldSliceMut;
+        let n = BitFieldSliceCore::<W>::len(v);
+        let w = BitFieldSliceCore::<W>::bit_width(v);
+        let mut copy = BitFieldVec::<W>::new(w, n);
+        for i in 0..n {
+            copy.set(i, BitFieldSlice::<W>::get(v, i));
+        }
+        t.u("eq_heap_copy", 0, (*v == copy) as usize);
+        t.u("eq_heap_copy_rev", 0, (copy == *v) as usize);
+        if n > 0 && w > 0 {
+            let i = n / 2;
+            let x = copy.get(i);
+            copy.set(i, x ^ W::ONE);
+            t.u("eq_heap_copy_one_changed", 0, (*v == copy) as usize);
+        }
+    }
     t.u("len", 0, BitFieldSliceCore::<W>::len(v));
     t.u("bit_width", 0, BitFieldSliceCore::<W>::bit_width(v));
     for &i in &q.idx {
